@@ -1,5 +1,5 @@
 """C19 — BitMap tracks each sequence residue independently."""
-import json
+import json, subprocess
 from vlib import *
 
 PROPS = "theories/Props/C19.v"
@@ -71,6 +71,101 @@ def corpus_cases():
     return out
 
 
+
+# ------------------------------------------------------------------------------------------------------------------
+# concurrent phase: several threads work on ONE BitMap, each on its own residues (same 64-bit words), under the
+# deterministic scheduler of harness/ring (hooked build: every atomic operation is a scheduling point and is logged)
+# ------------------------------------------------------------------------------------------------------------------
+def gen_concurrent(run):
+    rng = run.rng
+    lines = []; metas = []
+    n = 1500 if run.thorough else 200
+    for _ in range(n):
+        cap = rng.choice([2, 4, 8, 8, 16, 64, 128, 256])
+        nt = rng.choice([2, 2, 3]) if cap >= 4 else 2
+        # thread w owns the residues congruent to w modulo nt among the first few residues (so they share words)
+        window = min(cap, rng.choice([4, 8, 16, 70]))
+        progs = []; expect = {}
+        for w in range(nt):
+            mine = [r for r in range(window) if r % nt == w]
+            ops = []
+            for _k in range(rng.randrange(1, 7)):
+                if not mine: break
+                r = rng.choice(mine); o = rng.choices([0, 1], [3, 2])[0]
+                q = r + cap * rng.choice([0, 0, 1, 2, rng.randrange(0, 1 << 20)])
+                ops.append((o, q)); expect[r] = 1 if o == 0 else 0
+            progs.append(ops)
+        seed = rng.randrange(1, 1 << 30); strategy = rng.choice([0, 0, 1, 2])
+        toks = [1000000, cap, nt]
+        for ops in progs:
+            toks.append(len(ops))
+            for o, q in ops: toks += [o, q]
+        toks += [seed, strategy, 4000]
+        lines.append(" ".join(str(t) for t in toks)); metas.append({"cap": cap, "progs": progs, "expect": expect})
+    return lines, metas
+
+
+def run_concurrent(run):
+    from ringlib import ring_binary
+    binary = ring_binary(run)
+    lines, metas = gen_concurrent(run)
+    todo = list(zip(lines, metas)); results = []
+    while todo:
+        p = subprocess.run([binary], input="\n".join(l for l, _ in todo) + "\n", stdout=subprocess.PIPE, stderr=subprocess.PIPE, text=True,
+                           timeout=600, env=env_offline())
+        chunks = p.stdout.split("END\n")
+        done = 0
+        for ch in chunks:
+            if not ch.strip(): continue
+            results.append((todo[done], ch)); done += 1
+        if done == 0: fatal(run, "harness/ring produced no output in BitMap mode", p.stderr[-800:])
+        todo = todo[done:]          # the harness exits after an aborted run: restart with the rest
+    dist = {"concurrent_histories": len(results), "threads": {}, "capacities": {}, "ops_total": 0, "outcomes": {}}
+    n_ok = 0; corr_fail = None
+    for (line, meta), out in results:
+        rows = out.strip().split("\n")
+        head = rows[0].split(); outcome = int(head[1])
+        dist["outcomes"][outcome] = dist["outcomes"].get(outcome, 0) + 1
+        dist["threads"][len(meta["progs"])] = dist["threads"].get(len(meta["progs"]), 0) + 1
+        dist["capacities"][meta["cap"]] = dist["capacities"].get(meta["cap"], 0) + 1
+        dist["ops_total"] += sum(len(p) for p in meta["progs"])
+        run.cov["evaluations"] += 1
+        events = [list(map(int, r.split()[1:])) for r in rows if r.startswith("E ")]
+        sched = next((r.split()[1:] for r in rows if r.startswith("SCHED")), [])
+        bits = next((list(map(int, r.split()[1:])) for r in rows if r.startswith("BITS")), None)
+        replay_line = " ".join(line.split() + list(sched))
+        if outcome != 1 or bits is None:
+            run.violation({"kind": "property-oracle-failed-on-implementation", "why": f"the BitMap threads did not all finish (outcome {outcome}: 2 deadlock, 3 step budget, 5 panic)",
+                           "harness_line": replay_line}); return dist
+        # correspondence: every set is ONE fetch_or and every unset ONE fetch_and (SeqCst) on a word - the atomicity the model assumes
+        per = {}
+        for e in events:
+            tid, kind = e[0], e[1]
+            if kind == 30: per[tid] = []
+            elif kind in (1, 2, 3, 5, 6) and tid in per and per[tid] is not None: per[tid].append((kind, e[4]))
+            elif kind == 31:
+                want = 5 if e[6] == 0 else 6
+                if per.get(tid) != [(want, 4)] and corr_fail is None:
+                    corr_fail = {"kind": "correspondence-broken (BitMap/Model.v assumes each set / unset is one atomic read-modify-write of one word; the hooked implementation did something else; every residue still ended as the property demands on every explored schedule)",
+                                 "correspondence": "BitMap call = one fetch_or / fetch_and (SeqCst)", "why": f"thread {tid}: call op={e[6]} seq={e[7]} performed atomic operations {per.get(tid)} (kind, ordering) instead of [({want}, 4)]",
+                                 "harness_line": replay_line}
+                per[tid] = None
+        # the property: every residue tests as set exactly when the last call addressed to it was a set, whatever the interleaving
+        bad = [(r, v, bits[r]) for r, v in sorted(meta["expect"].items()) if r < len(bits) and bits[r] != v]
+        untouched = [r for r in range(len(bits)) if r not in meta["expect"] and bits[r] != 0]
+        if bad or untouched:
+            run.violation({"kind": "property-oracle-failed-on-implementation",
+                           "why": f"concurrent calls on DISTINCT residues interfered: (residue, expected, observed) {bad[:6]}; never-addressed residues that test as set: {untouched[:6]}",
+                           "capacity": meta["cap"], "programs": meta["progs"], "schedule": sched, "harness_line": replay_line,
+                           "rerun": "feed harness_line to .cache/target/ring-hook/release/verif_ring (hooked build) - the schedule is replayed"})
+            return dist
+        n_ok += 1
+    dist["concurrent_histories_ok"] = n_ok
+    if corr_fail is not None:
+        run.violation(corr_fail, name=f"corr-{run.tier}.json", no_input=True)
+    return dist
+
+
 def main():
     run = Run("C19")
     run.do_proof(PROPS)
@@ -86,10 +181,13 @@ def main():
     for i in range(0, len(cases), B):
         d.process(cases[i:i + B])
     found = d.finish()
+    conc_dist = run_concurrent(run) if not run.violations else {}
     proof_failure_violation(run, found or run.violations)
     run.cov["rule"] = ("capacity 2^k (k=0..12); histories of set/unset/is_set over a small pool of residues with lap offsets up to 2^63; "
                        "exhaustive: for each small capacity every residue a: set a, query all residues, unset a, query all. "
-                       "Non-trivial = at least two mutating operations; distinct by (capacity, op list)")
+                       "Non-trivial = at least two mutating operations; distinct by (capacity, op list). CONCURRENT PHASE: 2-3 threads, each with its own residues inside shared words, "
+                       "run on one BitMap under the deterministic scheduler of harness/ring (hooked build); oracles: every call is exactly one SeqCst fetch_or / fetch_and, and every residue ends as its owner's last call left it")
+    dist.update(conc_dist)
     run.cov["distribution"] = dist
     run.cov["samples"] = [cases[0].to_json(), cases[-1].to_json()]
     run.cov["samples"][1]["ops"] = run.cov["samples"][1]["ops"][:30]
@@ -99,5 +197,23 @@ def main():
 
 
 def replay(path):
+    dj = json.load(open(path))
+    hl = dj.get("harness_line", "")
+    if hl.startswith("1000000 "):
+        # concurrent history: re-run it (the recorded schedule is replayed) and judge the final bits again
+        from ringlib import ring_binary
+        run = Run("C19"); binary = ring_binary(run)
+        v = [int(t) for t in hl.split()]
+        cap, nt = v[1], v[2]; p = 3; expect = {}
+        for _w in range(nt):
+            n = v[p]; p += 1
+            for _k in range(n):
+                o, q = v[p], v[p + 1]; p += 2; expect[q % cap] = 1 if o == 0 else 0
+        pr = subprocess.run([binary], input=hl + "\n", stdout=subprocess.PIPE, stderr=subprocess.PIPE, text=True, timeout=120, env=env_offline())
+        bits = next((list(map(int, r.split()[1:])) for r in pr.stdout.split("\n") if r.startswith("BITS")), None)
+        print("expected (residue -> bit):", dict(sorted(expect.items())), "\nobserved bits:", bits)
+        bad = bits is None or any(r < len(bits) and bits[r] != e for r, e in expect.items())
+        print("REPRODUCED" if bad else "not reproduced")
+        return 1 if bad else 0
     run = Run("C19"); ensure_driver(); bins = build(run)
     return generic_replay(Differential(run, bins, lambda c: "bitmap_model_entry", lambda c: "bitmap_spec_entry"), path)
